@@ -36,8 +36,22 @@ def enc_ok(r: Ref['obj']) -> bool:
 
 @spec
 def base_fixed() -> bool:
-    """two-state: a g_base once set is never written again"""
-    return forall(lambda x: implies(old(is_bytes(obj_at(x).g_base)), unchanged(obj_at(x).g_base)))
+    """two-state: a g_base / an address tag once set is never written again"""
+    return (forall(lambda x: implies(old(is_bytes(obj_at(x).g_base)), unchanged(obj_at(x).g_base)))
+            and forall(lambda x: implies(old(is_obj(obj_at(x).g_addr)), unchanged(obj_at(x).g_addr))))
+
+
+@spec
+def tagged(self: Ref['mqtt.client.pubsubs.MQTTProtocol'], r: Ref['obj']) -> bool:
+    """C19: the request belongs to this protocol's broker address (ghost g_addr, set when the request enters the
+    per-address state, never written again)"""
+    return is_obj(r.g_addr) and r.g_addr == self.addr
+
+
+@spec
+def not_foreign(self: Ref['mqtt.client.pubsubs.MQTTProtocol'], r: Ref['obj']) -> bool:
+    """untagged (fresh) or tagged with this protocol's address"""
+    return not is_obj(r.g_addr) or r.g_addr == self.addr
 
 
 @spec
@@ -66,7 +80,7 @@ def pub_ok(self: Ref['mqtt.client.pubsubs.MQTTProtocol'], r: Ref['mqtt.pdu.PUBLI
             and is_bool(r.retain) and is_str(r.topic) and is_bool(r.dup)
             and deferred_pending(r) and is_int(r.retries)
             and isa(r.interval, 'mqtt.client.interval.IntervalLinear') and wf_linear(r.interval)
-            and alarm_ok(self, r, fn('mqtt.client.pubsubs.MQTTProtocol._publishError')))
+            and alarm_ok(self, r, fn('mqtt.client.pubsubs.MQTTProtocol._publishError')) and tagged(self, r))
 
 
 @spec
@@ -76,7 +90,7 @@ def rel_ok(self: Ref['mqtt.client.pubsubs.MQTTProtocol'], r: Ref['mqtt.pdu.PUBRE
             and is_bytes(r.encoded) and len(as_bytes(r.encoded)) >= 1 and enc_ok(r)
             and deferred_pending(r) and is_int(r.retries)
             and isa(r.interval, 'mqtt.client.interval.Interval') and wf_interval(r.interval)
-            and alarm_ok(self, r, fn('mqtt.client.pubsubs.MQTTProtocol._pubrelError')))
+            and alarm_ok(self, r, fn('mqtt.client.pubsubs.MQTTProtocol._pubrelError')) and tagged(self, r))
 
 
 @spec
@@ -84,7 +98,7 @@ def sub_ok(self: Ref['mqtt.client.pubsubs.MQTTProtocol'], r: Ref['mqtt.pdu.SUBSC
     return (isa(r, 'mqtt.pdu.SUBSCRIBE') and is_int(r.msgId) and 1 <= r.msgId and r.msgId <= 65535
             and is_bytes(r.encoded) and len(as_bytes(r.encoded)) >= 1 and enc_ok(r) and deferred_pending(r)
             and isa(r.interval, 'mqtt.client.interval.Interval') and wf_interval(r.interval)
-            and alarm_ok(self, r, fn('mqtt.client.pubsubs.MQTTProtocol._subscribeError')))
+            and alarm_ok(self, r, fn('mqtt.client.pubsubs.MQTTProtocol._subscribeError')) and tagged(self, r))
 
 
 @spec
@@ -92,7 +106,7 @@ def unsub_ok(self: Ref['mqtt.client.pubsubs.MQTTProtocol'], r: Ref['mqtt.pdu.UNS
     return (isa(r, 'mqtt.pdu.UNSUBSCRIBE') and is_int(r.msgId) and 1 <= r.msgId and r.msgId <= 65535
             and is_bytes(r.encoded) and len(as_bytes(r.encoded)) >= 1 and enc_ok(r) and deferred_pending(r)
             and isa(r.interval, 'mqtt.client.interval.Interval') and wf_interval(r.interval)
-            and alarm_ok(self, r, fn('mqtt.client.pubsubs.MQTTProtocol._unsubscribeError')))
+            and alarm_ok(self, r, fn('mqtt.client.pubsubs.MQTTProtocol._unsubscribeError')) and tagged(self, r))
 
 
 @spec
@@ -167,14 +181,14 @@ def inv_U(self: Ref['mqtt.client.pubsubs.MQTTProtocol']) -> bool:
 
 @spec
 def inv_X(self: Ref['mqtt.client.pubsubs.MQTTProtocol']) -> bool:
-    return forall(lambda k: implies(contains(X(self), k), rx_ok(X(self)[k]) and X(self)[k].msgId == k))
+    return forall(lambda k: implies(contains(X(self), k), rx_ok(X(self)[k]) and X(self)[k].msgId == k and tagged(self, X(self)[k])))
 
 
 @spec
 def inv_Q(self: Ref['mqtt.client.pubsubs.MQTTProtocol']) -> bool:
     return (dq_head(Q(self)) <= dq_tail(Q(self))
             and forall(lambda j: implies(dq_head(Q(self)) <= j and j < dq_tail(Q(self)),
-                                         queued_ok(dq_at(Q(self), j)) and dq_at(Q(self), j).q_pos == j)))
+                                         queued_ok(dq_at(Q(self), j)) and dq_at(Q(self), j).q_pos == j and tagged(self, dq_at(Q(self), j)))))
 
 
 @spec
